@@ -128,6 +128,7 @@ def run(ctx, build):
                 try:
                     with common.quiet():
                         u = usid.USIDataset(main, sort_dims=sd)
+                        gen.Bystander.get(ctx.tmp).touch()
                 except Exception as e:
                     hist['exceptions'][type(e).__name__] = hist['exceptions'].get(type(e).__name__, 0) + 1
                     out.violations.append({'call_site': 'USIDataset.__init__', 'input_class': input_class(lay),
@@ -159,7 +160,13 @@ def run(ctx, build):
                                                'input_class': input_class(lay), 'failure_mode': 'raises_' + type(e).__name__,
                                                'what': '%r on %s' % (e, m0), 'case': m0})
                         break
-                    ids = gen.ids_of(nd, lay.dtype)
+                    try:
+                        ids = gen.ids_of(nd, lay.dtype)
+                    except Exception as e:
+                        out.violations.append({'call_site': 'USIDataset.get_n_dim_form / n_dim_labels / n_dim_sizes', 'input_class': input_class(lay),
+                                               'failure_mode': 'n_dim_form_not_of_the_dataset_element_type',
+                                               'what': 'dtype %s for a %s dataset on %s' % (getattr(nd, 'dtype', None), lay.dtype, m0), 'case': m0})
+                        break
                     labs = gc.label_ids(lay, u.n_dim_labels)
                     sizes = [int(x) for x in u.n_dim_sizes]
                     hist['view_reads'] += 1
@@ -186,6 +193,29 @@ def run(ctx, build):
                                                'input_class': cls, 'failure_mode': mode, 'what': '%s on %s' % (mode, m), 'case': m})
             if len(out.samples) < 4 and lay.nontrivial():
                 out.samples.append({'layout': lay.describe(), 'expected_nd_shape': list(exp.shape)})
+    # ---- designed, seed-independent: grids with more points on a side than 16 bits can count (exact oracle only: far too large
+    # for the in-Coq evaluation); free function and dataset object, both views
+    hist['long_grid_layouts'] = 0
+    for lay in (gen.Layout([2], [0], [3, 21846], [0, 1]), gen.Layout([13108, 5], [0, 1], [2], [0]), gen.Layout([2], [0], [21846, 3], [1, 0])):
+        hist['long_grid_layouts'] += 1
+        with h5py.File(path, 'w') as h5:
+            main = gen.write_layout(h5, lay)
+            exp = gc.expected_nd(lay)
+            for sd in (False, True):
+                m = {'layout': lay.describe(), 'call': 'reshape_to_n_dims / USIDataset', 'sort_dims': sd}
+                try:
+                    with common.quiet():
+                        nd, ok, labs = reshape_to_n_dims(main, get_labels=True, sort_dims=sd)
+                        u = usid.USIDataset(main, sort_dims=sd)
+                        nd2 = u.get_n_dim_form()
+                    mode = check_labelled(lay, exp, gen.ids_of(nd, lay.dtype), gc.label_ids(lay, labs), sd) if ok is True else 'reshape_not_successful'
+                    mode = mode or check_labelled(lay, exp, gen.ids_of(nd2, lay.dtype), gc.label_ids(lay, u.n_dim_labels), sd)
+                except Exception as e:
+                    mode = 'raises_' + type(e).__name__
+                    m['exception'] = repr(e)[:200]
+                if mode:
+                    out.violations.append({'call_site': 'hdf_utils.reshape_to_n_dims', 'input_class': 'more_than_65535_points_on_a_side',
+                                           'failure_mode': mode, 'what': '%s on %s' % (mode, m), 'case': m})
     bad, err = common.coq_eval_cases(ctx, HEADER, cases, 'check01', case_type='case01', per_file=150)
     bad2, err2 = common.coq_eval_cases(ctx, HEADER, vcases, 'check01v', case_type='case01v', per_file=150, tag='view')
     bad3, err3 = common.coq_eval_cases(ctx, HEADER, ecases, 'check01e', case_type='case01e', tag='verr')
